@@ -602,6 +602,8 @@ public:
       c.tight_pools = r.chance(0.35);
     if (c.trackers && r.chance(0.8))
       c.tracker_variant = (int)r.range(1, 9);
+    if (prop == "C12" && r.chance(0.4))
+      c.fields_mask = (int)r.below(8);
     return c.to_json();
   }
 
